@@ -27,6 +27,9 @@ def cells(tier):
                 sc = scen(pool(size), [[A("A", 3)], [cancel(rid("A", 0))], [cancel(rid("A", 1))]] + fl,
                           outcomes=["ret"] if cbn != "plain" else ["ret", "exc"], **cb)
                 out.append(cell(f"s{size} A3 cancel0 cancel1 {cbn} flush x{len(fl)}", sc, MON))
+    for size in [2, 3]:
+        sc = scen(pool(size), [[A("A", 3)], [cancel(rid("A", 0))], [FLUSH]], outcomes=["ret", "exc"], ecb="plain", ccb="slow", slow_ids=[0])
+        out.append(cell(f"s{size} A3 cancel0 flush slowccb0 ret/exc", sc, MON))
     sc = scen(pool(2), [[A("A", 2)], [M("M", 2, 1)], [FLUSH_RE]] + ([] if q else [[FLUSH_RE]]), outcomes=["ret", "exc"], ecb="slow", slow_ids=[1])
     out.append(cell("s2 A2|M2/1 exc flushRE x2 slowecb1", sc, MON))
     sc = scen(pool(2, "SimpleTaskPool", ecb="slow", ccb="plain", slow_ids=[0]), [[S("S", 3)], [["stop", 1]], [FLUSH], [FLUSH]], outcomes=["ret"])
